@@ -65,11 +65,18 @@ class PyRepo:
                 from .pynormal import fold_temporaries, worklist_to_recursion, poploop_to_for, eafp_to_lbyl, outline_accessors, \
                     while_true_to_test, inline_local_procedures, loop_to_comprehension, search_loop_to_membership, \
                     checked_unwrap_to_extract, match_to_if, optional_flag_to_test, nest_lifted_helpers, inline_simple_generators, \
-                    extend_by_generator_to_appends
-                self.nested_helpers = getattr(self, 'nested_helpers', 0) + nest_lifted_helpers(tree)
-                self.drained = getattr(self, 'drained', 0) + match_to_if(tree) + optional_flag_to_test(tree) + inline_simple_generators(tree) + extend_by_generator_to_appends(tree) + poploop_to_for(tree) + eafp_to_lbyl(tree)
+                    extend_by_generator_to_appends, unpartial_private_helpers, dissolve_local_objects, bound_generator_to_list
+                from .pynormal import inline_effectful_predicates, get_or_insert_to_membership
+                self.drained = getattr(self, 'drained', 0) + get_or_insert_to_membership(tree)
+                self.nested_helpers = getattr(self, 'nested_helpers', 0) + inline_effectful_predicates(tree) + unpartial_private_helpers(tree) + nest_lifted_helpers(tree) + dissolve_local_objects(tree)
+                self.drained = getattr(self, 'drained', 0) + match_to_if(tree) + optional_flag_to_test(tree) + bound_generator_to_list(tree) + inline_simple_generators(tree) + extend_by_generator_to_appends(tree) + poploop_to_for(tree) + eafp_to_lbyl(tree)
+                from .pynormal import specialise_tables
+                self.tables_specialised = getattr(self, 'tables_specialised', 0) + sum(
+                    specialise_tables(f_, tree) for f_ in [x for x in ast.walk(tree) if isinstance(x, ast.FunctionDef)])
                 self.inlined_procs = getattr(self, 'inlined_procs', 0) + inline_local_procedures(tree)
                 self.drained += while_true_to_test(tree) + loop_to_comprehension(tree) + checked_unwrap_to_extract(tree)
+                from .pynormal import fold_list_building
+                self.drained += fold_list_building(tree)
                 self.folded = getattr(self, 'folded', 0) + fold_temporaries(tree)
                 self.outlined = getattr(self, 'outlined', 0) + outline_accessors(tree)
                 self.drained += search_loop_to_membership(tree)
@@ -78,6 +85,7 @@ class PyRepo:
                 self.early_accepts += [(rel, c, m, n) for c, m, n in worklist_to_recursion(tree)]
                 self.modules[rel] = self._index(rel, path, tree, src)
         self._materialise_installed_methods()
+        self._inline_trivial_accessors()
         self._dissolve_delegating_methods()
         self._specialise_self_dispatch()
         self._pull_down_template_methods()
@@ -205,6 +213,87 @@ class PyRepo:
                                 done = rows is not None
                     if not done:
                         self.dynamic_installs.append((mname, ci.name, c))
+
+    def _inline_trivial_accessors(self) -> None:
+        """A private property or one-line private method of a class - `def _top(self): return self.stack[-1]`,
+        `def _remember(self, e): self.memory.append(e)` - that no subclass overrides is its body: uses on `self` inside the class
+        and its subclasses are replaced by the body with the arguments in place of the parameters (an argument that is not a plain
+        name / attribute / constant only when the parameter occurs once).  Rules that read `self.stack[-1]` then see it whether or
+        not the project names it."""
+        import copy
+        self.accessors_inlined = 0
+        all_classes = [c for m in self.modules.values() for c in m.classes.values()]
+        for ci in all_classes:
+            subs = [c for c in all_classes if c is not ci and any(b.name == ci.name and b is ci for b in self.mro(c)[1:])]
+            family = [ci] + subs
+            for aname, g in list(ci.methods.items()):
+                if not aname.startswith('_') or aname.startswith('__') or any(aname in c.methods for c in subs):
+                    continue
+                decos = [ast.unparse(d) for d in g.decorator_list]
+                if decos not in ([], ['property']):
+                    continue
+                body = [st for st in g.body if not (isinstance(st, ast.Expr) and isinstance(st.value, ast.Constant))]
+                if len(body) != 1 or g.args.vararg or g.args.kwarg or g.args.kwonlyargs or g.args.defaults or not g.args.args:
+                    continue
+                is_prop = decos == ['property']
+                if isinstance(body[0], ast.Return) and body[0].value is not None:
+                    expr, proc = body[0].value, False
+                elif isinstance(body[0], ast.Expr) and isinstance(body[0].value, ast.Call) and not is_prop:
+                    expr, proc = body[0].value, True
+                else:
+                    continue
+                if any(isinstance(n, (ast.Lambda, ast.NamedExpr, ast.Yield, ast.YieldFrom, ast.Await)) for n in ast.walk(expr)):
+                    continue
+                if any(isinstance(n, ast.Attribute) and isinstance(n.value, ast.Name) and n.value.id == g.args.args[0].arg and n.attr == aname
+                       for n in ast.walk(expr)):
+                    continue                              # refers to itself
+                sname = g.args.args[0].arg
+                params = [a.arg for a in g.args.args[1:]]
+                if is_prop and params:
+                    continue
+                uses_of = {p_: sum(1 for n in ast.walk(expr) if isinstance(n, ast.Name) and n.id == p_) for p_ in params}
+
+                def simple(e):
+                    while isinstance(e, ast.Attribute):
+                        e = e.value
+                    return isinstance(e, (ast.Name, ast.Constant))
+
+                def build(args, self_expr):
+                    table = dict(zip(params, args))
+                    table[sname] = self_expr
+
+                    class S(ast.NodeTransformer):
+                        def visit_Name(self, n):
+                            if n.id in table and isinstance(n.ctx, ast.Load):
+                                return ast.copy_location(copy.deepcopy(table[n.id]), n)
+                            return n
+                    return S().visit(copy.deepcopy(expr))
+
+                outer = self
+
+                class U(ast.NodeTransformer):
+                    def visit_Call(self, n):
+                        self.generic_visit(n)
+                        if not is_prop and isinstance(n.func, ast.Attribute) and n.func.attr == aname and isinstance(n.func.value, ast.Name) \
+                                and n.func.value.id == 'self' and not n.keywords and len(n.args) == len(params) \
+                                and not any(isinstance(a, ast.Starred) for a in n.args) \
+                                and all(simple(a) or uses_of[p_] == 1 for p_, a in zip(params, n.args)):
+                            outer.accessors_inlined += 1
+                            return ast.copy_location(build(n.args, n.func.value), n)
+                        return n
+
+                    def visit_Attribute(self, n):
+                        self.generic_visit(n)
+                        if is_prop and n.attr == aname and isinstance(n.value, ast.Name) and n.value.id == 'self' and isinstance(n.ctx, ast.Load):
+                            outer.accessors_inlined += 1
+                            return ast.copy_location(build([], n.value), n)
+                        return n
+                for c in family:
+                    for mname, m in c.methods.items():
+                        if m is g:
+                            continue
+                        U().visit(m)
+                        ast.fix_missing_locations(m)
 
     def _dissolve_delegating_methods(self) -> None:
         """A method that is nothing but `return helper(<simple arguments>)` of a module-level function of its own module IS that
@@ -734,3 +823,25 @@ def helper_objects(py: 'PyRepo', ci):
                             clash.add(tgt.attr)
                         out[tgt.attr] = (k, list(n.value.args))
     return {a: v for a, v in out.items() if a not in clash}
+
+
+def enclosing_top(tree: ast.AST, node: ast.AST):
+    """the OUTERMOST function definition (a module-level function or a method) that contains `node`: nested closures belong to the
+    function they are written in, whatever they are called.  -> FunctionDef | None"""
+    cur = enclosing_def(tree, node)
+    if cur is None:
+        return None
+    m = _ENCL_CACHE.get(('top', id(tree)))
+    if m is None:
+        m = {}
+        stack = [(tree, None)]
+        while stack:
+            n, top = stack.pop()
+            if isinstance(n, ast.FunctionDef) and top is None:
+                top = n
+            if isinstance(n, ast.FunctionDef):
+                m[id(n)] = top
+            for c in ast.iter_child_nodes(n):
+                stack.append((c, top))
+        _ENCL_CACHE[('top', id(tree))] = m
+    return m.get(id(cur), cur)
